@@ -218,7 +218,8 @@ def load_ledger():
 
 
 def clause_id(oid):
-    return oid.split("#")[0].split("[")[0]
+    import re
+    return re.sub(r"\[[^\]]*\]", "", oid.split("#")[0])
 
 
 def finish(prop, mod, tier, seed, outs, wall):
@@ -365,19 +366,37 @@ def finish(prop, mod, tier, seed, outs, wall):
 
     for l in kf_lines:
         print(l)
-    for v, fn, suf in violations:
-        print("VIOLATION property=%s replay=%s%s" % (prop, fn, (" " + suf) if suf else ""))
-        print("  obligation %s: %s" % (v["oid"], v["clause"]))
-        if v.get("model"):
-            print("  model: %s" % json.dumps(v["model"], default=str)[:400])
-        if v.get("replay"):
-            print("  replay: %s" % json.dumps(v["replay"], default=str)[:600])
+    for i, (v, fn, suf) in enumerate(violations):
+        print("VIOLATION property=%s replay=%s%s" % (prop, os.path.relpath(fn, VERIF), (" " + suf) if suf else ""))
+        if i < 4:
+            print("  obligation %s: %s" % (v["oid"], v["clause"][:300]))
+            if v.get("model"):
+                print("  model: %s" % json.dumps(v["model"], default=str)[:500])
+            if v.get("replay"):
+                print("  replay: %s" % json.dumps(v["replay"], default=str)[:700])
     for u in undecided[:12]:
         print("UNDECIDED: " + u[:600])
     for c in crashes[:6]:
         print("CHECKER-ERROR: " + c[:3000])
     print("property=%s tier=%s obligations=%d discharged=%d bounded_cases=%d undecided=%d paths=%d wall=%.1fs" % (
         prop, tier, n_ob, n_dis, bcases, len(undecided), cov["paths_explored"], wall))
+    if os.environ.get("PYVC_UPDATE_LEDGER") == "1":
+        if violations or crashes or undecided:
+            print("ledger NOT updated: the run is not green")
+        else:
+            full = load_ledger()
+            cur = full.get(prop, {})
+            if tier == "thorough":
+                cur = {}
+            for r in vcs + bnd:
+                if r["status"] == DISCHARGED:
+                    cid = clause_id(r["oid"])
+                    e = cur.setdefault(cid, {"unit": r["unit"], "kind": r["kind"]})
+                    if tier == "thorough" and cid not in quick_ids(prop):
+                        e["thorough_only"] = True
+            full[prop] = cur
+            json.dump(full, open(os.path.join(VERIF, "obligations.lock.json"), "w"), indent=0, sort_keys=True)
+            print("ledger updated: %d clauses for %s" % (len(cur), prop))
     if violations:
         return 1
     if crashes:
@@ -385,3 +404,10 @@ def finish(prop, mod, tier, seed, outs, wall):
     if undecided:
         return 2
     return 0
+
+
+def quick_ids(prop):
+    p = os.path.join(VERIF, ".ledger_quick_%s.json" % prop)
+    if os.path.exists(p):
+        return set(json.load(open(p)))
+    return set()
